@@ -61,6 +61,8 @@ def obs_runs(mode):
         runs = [("main", ["--mode", mode, "--mtu", str(m), "--wifi", "0"]) for m in mt]
         if mode == "c07":            # three interfaces: frames on the other two interleave (MTU 576: the smallest capacity)
             runs += [("main", ["--mode", "c07", "--mtu", "576", "--wifi", "0", "--b", "1", "--a", "40"])]
+        if mode == "c07":            # host getters (icon, name, hardware ID) failing during the large-property requests of the alphabet
+            runs += [("main", ["--mode", "c07", "--mtu", "576", "--wifi", "0", "--b", "2", "--a", "40"])]
         if mode == "c07":            # observations whose addresses differ in one bit
             runs += [("main", ["--mode", "c07a", "--mtu", "1500", "--wifi", "0"])]
         if mode == "c07":            # every sequence number of a Query
